@@ -26,6 +26,7 @@ package xpath
 
 import (
 	"bytes"
+	"errors"
 	"fmt"
 	"math"
 	"strconv"
@@ -113,6 +114,10 @@ func numberFromString(numStr string) float64 {
 		return math.NaN()
 	}
 	num, err := strconv.ParseFloat(numStr, 64)
+	if errors.Is(err, strconv.ErrRange) {
+		// beyond the range of a double: the infinity (round to nearest)
+		return num
+	}
 	if err != nil {
 		return math.NaN()
 	}
